@@ -132,6 +132,21 @@ __CPROVER_assigns(OUT_FRAME, PI_FRAME, ERR_FRAME, num_pus->size)
 #define DECODE decode_numabalanced_distribution
 #endif
 
+#ifdef U_NUMA_WORKERS
+//@FUNC
+void decode_numabalanced_distribution(struct topo *t, struct maskvec *affinities, size_t used_cores, size_t max_cores,
+                                      struct szvec *num_pus, bool use_process_mask, struct error_code *ec)
+__CPROVER_requires(!vx_exc && g_errors == 0 && ec->value == pika_error_success && !g_invalid_pair)
+/* thread counts are bounded so that the per-socket shares cannot wrap around */
+__CPROVER_requires(affinities->size <= VX_BIG)
+/* (affinities[num_thread] / num_pus[num_thread] in bounds: obligations inside the vector stubs) */
+/* num_pus has one entry per worker */
+__CPROVER_ensures(vx_exc || num_pus->size == affinities->size)
+__CPROVER_assigns(OUT_FRAME, PI_FRAME, ERR_FRAME, num_pus->size)
+//@LIFT body
+#define DECODE decode_numabalanced_distribution
+#endif
+
 void harness(void)
 {
   struct topo topo;
@@ -171,7 +186,7 @@ void harness(void)
   struct szvec npu;
   aff.size = nondet_size();
   npu.size = nondet_size();
-#if defined(U_NUMA_PAIR) || defined(U_NUMA_BOUNDS)
+#if defined(U_NUMA_PAIR) || defined(U_NUMA_BOUNDS) || defined(U_NUMA_WORKERS)
   VX_ASSUME(aff.size <= VX_BIG);
 #endif
   size_t used_cores = nondet_size(), max_cores = nondet_size();
